@@ -753,3 +753,211 @@ for _d in SCRIPTS:
     if any(t in _d["name"] for t in ("[n3,style", "set_p_values/post (bounded: contests x assertions)[3x", "2 pools, 2 contests)[n3]",
                                      "set_tally_pool_means/post (bounded: n cards, 2 pools)[n3,style", "3 candidates)[n2,enforce")):
         _d["thorough_only"] = True
+
+
+# ------------------------------------------------------------------ C16d: interleave_values (unbounded, loop invariant)
+
+class InterleaveInvariant:
+    """loop 0 of Assertion.interleave_values:  for i in range(1, N).
+    Invariant at the head of iteration i (1 <= i <= N):
+      i_s + i_m + i_b = i,  0 <= i_* <= n_*,  r_* = (n_* - i_*)/n_* (0 for an empty class; r_big for n_big >= 1),
+      and among x[0..i) exactly i_s entries equal `small`, i_m equal `med`, i_b equal `big` (ghost counts)."""
+
+    def __init__(self, S, ns, nm, nb, small, med, big):
+        self.S = S
+        self.n = (ns, nm, nb)
+        self.vals = (small, med, big)
+
+    def counts(self, x):
+        N = x.length
+        out = []
+        for v in self.vals:
+            ind = SymArr(N, (lambda v: (lambda k: mkint(iite(xsame(x.at(k), v), 1, 0))))(v), "int")
+            out.append(ind.fold("+"))
+        return out
+
+    def inv(self, env, i, x, cnt):
+        ns, nm, nb = self.n
+        i_s, i_m, i_b = env["i_small"], env["i_med"], env["i_big"]
+        rs, rm, rb = xr(env["r_small"]), xr(env["r_med"]), xr(env["r_big"])
+        frac = lambda n, k: xdiv_np(XR.const(mkint(isub(n, k))), XR.const(n))
+        return [
+            ("counters sum to i", icmp("==", iadd(iadd(i_s, i_m), i_b), i)),
+            ("0 <= i_* <= n_*", band(icmp(">=", i_s, 0), icmp("<=", i_s, ns), icmp(">=", i_m, 0), icmp("<=", i_m, nm),
+                                    icmp(">=", i_b, 0), icmp("<=", i_b, nb))),
+            ("r_small", xsame(rs, xite(icmp(">", ns, 0), frac(ns, i_s), XR.const(0)))),
+            ("r_med", xsame(rm, xite(icmp(">", nm, 0), frac(nm, i_m), XR.const(0)))),
+            ("r_big", xsame(rb, frac(nb, i_b))),
+            ("ghost counts", band(icmp("==", cnt[0].at(i), i_s), icmp("==", cnt[1].at(i), i_m), icmp("==", cnt[2].at(i), i_b))),
+        ]
+
+    def run_for(self, I, st, env, in_class):
+        from pyvc.interp import CutPath
+        from .nonneg import scoped_induction
+        S = self.S
+        c = ctx()
+        ns, nm, nb = self.n
+        N = mkint(iadd(iadd(ns, nm), nb))
+        x0 = env.vars["x"]
+        cnt0 = self.counts(x0)
+        for nm_, g in self.inv(env.vars, 1, x0, cnt0):
+            S.holds("interleave.inv.entry: " + nm_, g)
+        mode = c.decide(z3.Bool(c.fresh("interleave_branch_preserve")))
+        fresh_state = lambda tag: {k: SInt(z3.Int(c.fresh(k + tag))) for k in ("i_small", "i_med", "i_big")}
+        if mode:
+            i = z3.Int(c.fresh("li"))
+            c.assume(z3.And(i >= 1, i < zi(iterm(N))))
+            X = z3.Function(c.fresh("X"), z3.IntSort(), z3.RealSort())
+            x = SymArr(N, lambda k: XR(X(zi(k)), npk=True), "xr")
+            st_ = fresh_state("@")
+            for k, v in st_.items():
+                env.vars[k] = v
+            frac = lambda n, k: xdiv_np(XR.const(mkint(isub(n, k))), XR.const(n))
+            env.vars["r_small"] = xite(icmp(">", ns, 0), frac(ns, st_["i_small"]), XR.const(0))
+            env.vars["r_med"] = xite(icmp(">", nm, 0), frac(nm, st_["i_med"]), XR.const(0))
+            env.vars["r_big"] = frac(nb, st_["i_big"])
+            for r_ in ("r_small", "r_med", "r_big"):
+                env.vars[r_].npk = False
+            env.vars["x"] = x
+            env.vars["i"] = SInt(i)
+            cnt = self.counts(x)
+            for nm_, g in self.inv(env.vars, i, x, cnt):
+                c.assume(g)
+            xold = x.copy()
+            I.exec_block(st.body, env, in_class)
+            x2 = env.vars["x"]
+            cnt2 = self.counts(x2)
+            # entries below i are untouched, so the ghost counts up to i are unchanged (induction), then one step
+            for q in range(3):
+                inst = scoped_induction(S, f"interleave.counts[{q}] below i unchanged", lambda k, q=q: icmp("==", cnt2[q].at(k), cnt[q].at(k)), i)
+                inst(i)
+            for nm_, g in self.inv(env.vars, i + 1, x2, cnt2):
+                S.holds("interleave.inv.preserved: " + nm_, g)
+            raise CutPath()
+        # after the loop: invariant at i = N
+        X = z3.Function(c.fresh("Xf"), z3.IntSort(), z3.RealSort())
+        x = SymArr(N, lambda k: XR(X(zi(k)), npk=True), "xr")
+        st_ = fresh_state("!")
+        for k, v in st_.items():
+            env.vars[k] = v
+        env.vars["x"] = x
+        frac = lambda n, k: xdiv_np(XR.const(mkint(isub(n, k))), XR.const(n))
+        env.vars["r_small"] = xite(icmp(">", ns, 0), frac(ns, st_["i_small"]), XR.const(0))
+        env.vars["r_med"] = xite(icmp(">", nm, 0), frac(nm, st_["i_med"]), XR.const(0))
+        env.vars["r_big"] = frac(nb, st_["i_big"])
+        cnt = self.counts(x)
+        self.final_counts = cnt
+        for nm_, g in self.inv(env.vars, iterm(N), x, cnt):
+            c.assume(g)
+
+
+@script(["C16"], "Assertion.interleave_values/post (loop invariant, unbounded)")
+def interleave_values_post(S, I, variant):
+    ns = S.integer("n_small", lo=0)
+    nm = S.integer("n_med", lo=0)
+    nb = S.integer("n_big", lo=1)            # K7 (known finding, bounded case interleave_values): n_big = 0 divides by zero
+    small = S.real("small")
+    med = S.real("med", lo_strict=small)
+    big = S.real("big", lo_strict=med)
+    fn = I.get(MOD, "Assertion.interleave_values")
+    inv = InterleaveInvariant(S, ns, nm, nb, small.asnp(), med.asnp(), big.asnp())
+    I.invariants[("Assertion.interleave_values", 0)] = inv
+    from pyvc.interp import CutPath
+    S.native_desc = None
+    try:
+        r, exc = guard(S, I, lambda: I.call(fn, [ns, nm, nb], {"small": small, "med": med, "big": big}))
+    except CutPath:
+        return
+    if exc:
+        return
+    N = mkint(iadd(iadd(ns, nm), nb))
+    S.holds("length = n_small + n_med + n_big", icmp("==", r.length, N))
+    cnt = inv.counts(r)
+    fc = getattr(inv, "final_counts", None)
+    if fc is None:
+        S.holds("loop reached", False)
+        return
+    S.holds("exactly n_small entries equal `small`", icmp("==", fc[0].at(iterm(N)), ns))
+    S.holds("exactly n_med entries equal `med`", icmp("==", fc[1].at(iterm(N)), nm))
+    S.holds("exactly n_big entries equal `big`", icmp("==", fc[2].at(iterm(N)), nb))
+    S.holds("the returned array is the one the loop filled", r is not None)
+
+
+# ------------------------------------------------------------------ C18: merge_cvrs (structure-bounded, symbolic flags / contents)
+
+def _partitions(n):
+    """id patterns for n records as restricted growth strings, e.g. n=3: aaa aab aba abb abc"""
+    out = [[0]]
+    for _ in range(n - 1):
+        out = [p + [k] for p in out for k in range(max(p) + 2)]
+    return ["".join("abcdefgh"[k] for k in p) for p in out]
+
+
+@script(["C18"], "CVR.merge_cvrs/post (bounded: n records, every id pattern; symbolic flags, presence and tally pools)",
+        variants=tuple((p,) for n in (1, 2, 3) for p in _partitions(n)))
+def merge_cvrs_post(S, I, variant):
+    pat = variant[0]
+    n = len(pat)
+    CVR = I.get(MOD, "CVR")
+    recs = []
+    for i, ident in enumerate(pat):
+        votes = OptDict()
+        for cid in ("c1", "c2"):
+            votes.keys.append(cid)
+            votes.pres[cid] = mkbool(z3.Bool(f"r{i}.lists[{cid}]"))
+            # contents differ per record in a shared and in a private candidate: the surviving contents must be exactly one record's
+            votes.vals[cid] = {"shared": i, f"only_on_record_{i}": 1}
+        tp = S.choose(f"tally_pool{i}", [None, "p", "q", 0, ""] if n <= 2 else [None, "p", "q"])
+        o = Obj(CVR, {"id": ident, "votes": votes, "phantom": S.boolean(f"phantom{i}"), "pool": S.boolean(f"pool{i}"),
+                      "tally_pool": tp, "sample_num": None, "p": None, "sampled": False, "card_in_batch": None})
+        o.spec = {"lists": {cid: bterm(votes.pres[cid]) for cid in ("c1", "c2")}, "phantom": bterm(o.attrs["phantom"]),
+                  "pool": bterm(o.attrs["pool"]), "tp": tp, "i": i, "id": ident}
+        S._rec(f"rec{i}", o)
+        recs.append(o)
+    fn = I.get(MOD, "CVR.merge_cvrs")
+    r, exc = guard(S, I, lambda: I.call(fn, [list(recs)], {}), allowed=("ValueError",))
+    # oracle (property text)
+    groups = {}
+    for o in recs:
+        groups.setdefault(o.spec["id"], []).append(o.spec)
+    conflict = False
+    for ident, g in groups.items():
+        labels = [s["tp"] for s in g if s["tp"] is not None]
+        if len({(type(x).__name__, x) for x in labels}) > 1:
+            conflict = True
+    if exc:
+        S.holds("ValueError only for records of one card carrying different tally pools", conflict)
+        return
+    S.holds("no error => no tally-pool conflict", not conflict)
+    if conflict:
+        return
+    S.holds("one record per identifier, in first-appearance order", [o.attrs["id"] for o in r] == list(groups.keys()))
+    if [o.attrs["id"] for o in r] != list(groups.keys()):
+        return
+    for o in r:
+        g = groups[o.attrs["id"]]
+        votes = o.attrs["votes"]
+        for cid in ("c1", "c2"):
+            listed = bor(*[s["lists"][cid] for s in g])
+            has = bterm(votes.has(cid)) if isinstance(votes, OptDict) else (cid in votes)
+            S.holds(f"[{o.attrs['id']}] lists {cid} iff some record of the card does", biff(has, listed))
+            # the later record wins within a contest
+            for k, s in enumerate(g):
+                later = bor(*[t["lists"][cid] for t in g[k + 1:]]) if g[k + 1:] else False
+                winner_here = band(s["lists"][cid], bnot(later))
+                val = votes.vals[cid] if isinstance(votes, OptDict) else votes.get(cid)
+                if isinstance(val, dict):
+                    S.holds(f"[{o.attrs['id']}] {cid}: contents of the last record listing it survive (record {s['i']})",
+                            bimp(winner_here, val == {"shared": s["i"], f"only_on_record_{s['i']}": 1}))
+                else:
+                    # merged symbolically: the surviving content is a conditional over records; check through its guard structure
+                    S.holds(f"[{o.attrs['id']}] {cid}: merged contents stay a dict", False)
+        S.holds(f"[{o.attrs['id']}] phantom only if all were", biff(I.truth_term(o.attrs["phantom"]), band(*[s["phantom"] for s in g])))
+        pv = o.attrs["pool"]
+        S.holds(f"[{o.attrs['id']}] pool is a true/false value", isinstance(pv, (bool, SBool)))
+        if isinstance(pv, (bool, SBool)):
+            S.holds(f"[{o.attrs['id']}] pooled iff at least one was", biff(bterm(pv), bor(*[s["pool"] for s in g])))
+        labels = [s["tp"] for s in g if s["tp"] is not None]
+        S.holds(f"[{o.attrs['id']}] keeps the common tally pool",
+                (o.attrs["tally_pool"] is None) if not labels else (o.attrs["tally_pool"] is not None and o.attrs["tally_pool"] == labels[0]
+                                                                     and type(o.attrs["tally_pool"]) == type(labels[0])))
